@@ -7,6 +7,8 @@ ASSUMPTIONS = ["A-MATH: a change of alignment reference / z-axis convention acts
                "(kinematic fact, sampled by the bounded groups); that such a rotation leaves sum_helicities |.|^2 unchanged is the proved unitarity of the real "
                "D-matrices (dfun.D_matrix_conj/2j<=3) and the proved SU2M algebra / Euler-angle extraction (angle.SU2M.*)"]
 
+EXPLANATION += (' Proved on the real cal_angle.py with opaque numerical callees: frame matrices of cal_helicity_angle are the path products over all ancestors; the alignment step hands get_euler_angle exactly b_ref r_ref inv(r_c) inv(b_c) with one reference chain per final particle, for several declaration orders; alignment D-matrices are selected by helicity value.')
+
 from vt.contracts import dfun_sym, iface_amp, su2  # noqa: F401,E402
 from vt.contracts import dgroup  # noqa: F401,E402  (D(R1) D(R2) = D(R1 R2): representation + homomorphism lemma)
 from vt.contracts import align_sym  # noqa: F401,E402  (frame bookkeeping of cal_angle.py: chain boosts, frame matrices, alignment step)
